@@ -11,6 +11,7 @@ import json
 from mon import refbufr as R
 from mon.compare import opsig, jsonable
 from mon.gen import cases
+from mon import handover
 
 ID = 'C02'
 LEVEL = 'exploration'
@@ -107,6 +108,10 @@ def check_case(ctx, enc, msg, origin, name=None, label='plain'):
     for op in msg.ops:
         ctx.add('operators', op)
     ctx.add('editions', msg.edition)
+    if label == 'plain':
+        # the message object the Encoder returns for python lists, and the lists themselves, taken through further operations:
+        # every later encoding still gives these bytes
+        handover.on_flat_json(ctx, json.dumps(fj), spec, site=origin)
     if not msg.compressed:
         if out == msg.bytes:
             ctx.count('uncompressed_identical')
